@@ -200,6 +200,11 @@ def stepCal (st : CalState) (args : List String) : CalState × String :=
         let (names, ok) := deleteCal cr.names ci
         ({ st with cals := st.cals.set c (some { cr with names := names }) }, if ok then okv 0 else "fail ENOENT cb=0/0")
     | _, _ => (st, "bad-op")
+  | "load_names" :: c :: names =>        -- the table `vnacal_load` builds from the names of a file
+    match c.toNat? with
+    | some c => if c ≥ 4 then (st, "bad-op") else
+      ({ st with cals := st.cals.set c (some { ptab := PTab.setup, names := loadList names }) }, okv names.length)
+    | none => (st, "bad-op")
   | "find_calibration" :: c :: [name] =>
     match c.toNat? with
     | some c => match (st.cals[c]?).join with
